@@ -100,6 +100,10 @@ class NameGen:
         else:
             maxtot = 30 if lvl < 4 else (60 if long_ok else 30)
             tot = self._edge(1, maxtot, (1, 8, 9, 12, 29, 30, 31, 37, 59, 60))
+            if lvl == 4 and long_ok and r.random() < 0.08:
+                # up to what still fits a directory record (with Rock Ridge: a record that has room for nothing but the CE entry)
+                top = self.l4_max() - 8
+                tot = self._edge(61, top, (top, top - 1, top - 2, top - 5, top - 6, top - 20, 100, 150))
             le = r.choice((0, 0, 1, 3, 3, 3, min(tot, 7)))
             le = min(le, tot)
             ln = tot - le
@@ -119,6 +123,11 @@ class NameGen:
         ident = name + '.' + ext + ver
         if ident.split(';')[0] in ('.', '..'):
             ident = 'X' + ident
+        if lvl == 4:
+            # the limit is in bytes, and two of the level-4 characters take two
+            while len(ident.encode('utf-8')) > self.l4_max() and len(name) > 1:
+                name = name[:-1]
+                ident = name + '.' + ext + ver
         return ident
 
     def iso_dir(self):
@@ -131,10 +140,24 @@ class NameGen:
             n = self._edge(1, 31, (1, 8, 9, 30, 31))
         else:
             n = self._edge(1, 60, (1, 8, 9, 31, 60))
+            if r.random() < 0.06:
+                top = self.l4_max()
+                n = self._edge(61, top, (top, top - 1, top - 5, top - 6, 100, 150))
         s = ''.join(r.choice(chars) for _ in range(n))
+        if lvl == 4:
+            while len(s.encode('utf-8')) > self.l4_max() and len(s) > 1:
+                s = s[:-1]
         if s in ('.', '..'):
             s = 'D' + s
         return s
+
+    def l4_max(self):
+        """Longest level-4 identifier the library takes: 207 as documented for directories, less where the Rock Ridge CE
+        entry and the XA record must still fit into the 255-byte directory record."""
+        top = 193 if self.cfg.get('rr') else 207
+        if self.cfg.get('xa'):
+            top -= 14
+        return top
 
     rr_max = 255
 
@@ -218,7 +241,7 @@ class NameGen:
 WEIGHTS = {
     'add_fp': 30, 'add_dir': 14, 'rm_file': 6, 'rm_dir': 4, 'add_link': 8, 'rm_link': 5,
     'add_symlink': 5, 'hide': 3, 'add_eltorito': 3, 'rm_eltorito': 1, 'add_isohybrid': 1,
-    'rm_isohybrid': 1, 'dup_pvd': 0.3, 'restart': 4, 'mass_dirs': 1, 'mass_files': 1, 'add_boot_file': 0, 're_add': 1.5, 'chain_dirs': 0.8, 'mass_eltorito': 0.05, 'shared_hidden_boot': 0.5, 'hybrid_setup': 0.3, 'set_relocated_name': 0.6,
+    'rm_isohybrid': 1, 'dup_pvd': 0.3, 'restart': 4, 'mass_dirs': 1, 'mass_files': 1, 'add_boot_file': 0, 're_add': 1.5, 'chain_dirs': 0.8, 'mass_eltorito': 0.05, 'shared_hidden_boot': 0.5, 'hybrid_setup': 0.3, 'set_relocated_name': 0.6, 'recreate_dir': 1.2,
 }
 
 
@@ -373,7 +396,7 @@ class OpGen:
                     return None
                 op['rr'] = rn
                 if self.ra.random() < 0.5:
-                    op['mode'] = self.ra.choice((0o100444, 0o100644, 0o100755, 0o100400, 0o100777))
+                    op['mode'] = self.ra.choice((0o100444, 0o100644, 0o100755, 0o100400, 0o100777, 0o104755, 0o102750, 0o101777, 0o107777))
         if 'joliet' in chosen:
             parent = self._pick_dir('joliet')
             nm = self._new_uni_name('joliet', parent, 64)
@@ -743,6 +766,11 @@ class OpGen:
               'part_offset': r.choice((0, 0, 0, 1, 16)), 'sectors': r.choice((32, 32, 63, 1, r.randint(1, 63))),
               'heads': r.choice((64, 64, 255, 1, r.randint(1, 256))), 'part_type': r.choice((None, None, 0x17, 0x83, 0)),
               'mac': False, 'efi': None}
+        big = [o for o in (300, 700, 2000) if o * 512 * 1.25 <= m.stored_bytes()]
+        if big and r.random() < 0.5:
+            # a start beyond cylinder 255 of a small geometry: the two high cylinder bits live in the sector byte
+            op['part_offset'] = r.choice(big)
+            op['heads'], op['sectors'] = r.choice(((1, 1), (2, 3), (1, 2), (2, 1)))
         has_efi = any(e.get('efi') for e in m.eltorito['entries'][1:])
         if has_efi and r.random() < 0.7:
             op['efi'] = True
@@ -952,9 +980,62 @@ class OpGen:
                 return None
             op['rr'] = rn
         self.next_blob += 1
-        e1 = {'op': 'add_eltorito', 'boot': op['iso'], 'media': 'noemul', 'platform': 0, 'bootable': True, 'load_seg': 0, 'efi': False, 'bit': False}
-        e2 = dict(e1, efi=True, platform=0xef)
+        e1 = {'op': 'add_eltorito', 'boot': op['iso'], 'media': 'noemul', 'platform': 0, 'bootable': True, 'load_seg': 0, 'efi': False, 'bit': r.random() < 0.4}
+        e2 = dict(e1, efi=True, platform=0xef, bit=False)
         return [op, e1, e2, {'op': 'rm_link', 'ns': 'iso', 'path': op['iso']}]
+
+    def g_recreate_dir(self):
+        """Macro-op: empty a small directory, remove it, create it again under the same path and put entries back under their
+        old full paths - whatever the object remembered about the old directory (parent lookups, records) must be gone."""
+        m = self.m
+        r = self.ra
+        used = m.eltorito_blobs() if m.eltorito else set()
+        cands = []
+        for p, n in m.iter_ns('iso'):
+            if n.kind != 'dir' or p == '/' or not (1 <= len(n.children) <= 3):
+                continue
+            ok = True
+            for ch in n.children.values():
+                if ch.kind == 'dir' and ch.children:
+                    ok = False
+                if ch.kind == 'file' and (not isinstance(ch.blob, int) or ch.blob in used or ch.noinode):
+                    ok = False
+            if ok:
+                cands.append((p, n))
+        if not cands:
+            return None
+        p, n = r.choice(cands)
+        out = []
+        kids = sorted(n.children.items())
+        for nm, ch in kids:
+            cp = M.join(p, nm)
+            if ch.kind == 'dir':
+                out.append({'op': 'rm_dir', 'iso': cp})
+            else:
+                out.append({'op': 'rm_link', 'ns': 'iso', 'path': cp})
+        out.append({'op': 'rm_dir', 'iso': p})
+        again = {'op': 'add_dir', 'iso': p}
+        if m.rr:
+            again['rr'] = n.rr
+            if n.mode is not None and r.random() < 0.5:
+                again['mode'] = n.mode
+        out.append(again)
+        for nm, ch in kids:
+            if r.random() < 0.25:
+                continue
+            cp = M.join(p, nm)
+            if ch.kind == 'dir':
+                op = {'op': 'add_dir', 'iso': cp}
+            elif ch.kind == 'file':
+                op = {'op': 'add_fp', 'blob': self.next_blob, 'len': r.choice((1, 100, 2048, 2049)), 'route': 'fp', 'iso': cp}
+                self.next_blob += 1
+            else:
+                continue
+            if m.rr:
+                op['rr'] = ch.rr
+            op['_readd'] = True
+            out.append(op)
+        return out
 
     def g_set_relocated_name(self):
         """set_relocated_name(): the relocation directory of a Rock Ridge image gets other names than RR_MOVED / rr_moved
@@ -1022,6 +1103,10 @@ class OpGen:
         hy = {'op': 'add_isohybrid', 'part_entry': r.choice((1, 1, 4)), 'mbr_id': r.choice((None, r.getrandbits(32))),
               'part_offset': r.choice((0, 0, 1, 16)), 'sectors': r.choice((32, 63)), 'heads': r.choice((64, 255)), 'part_type': None,
               'mac': False, 'efi': None}
+        big = [o for o in (300, 700, 2000) if o * 512 * 1.25 <= m.stored_bytes() + sum(o_.get('len', 0) for o_ in out if o_['op'] == 'add_fp')]
+        if big and r.random() < 0.5:
+            hy['part_offset'] = r.choice(big)
+            hy['heads'], hy['sectors'] = r.choice(((1, 1), (2, 3), (1, 2), (2, 1)))
         if n_efi >= 1 and r.random() < 0.8:
             hy['efi'] = True
             if n_efi >= 2 and r.random() < 0.5:
